@@ -19,8 +19,9 @@ from .rustsrc import ExtractError
 from .pipeline import build_and_run, obligation_id, BUILD
 from . import tokens as tk
 
-EVID = os.path.join(VERIF, 'evidence')
-REPLAYS = os.path.join(VERIF, 'replays')
+# (VERIF_EVIDENCE / VERIF_REPLAYS / VERIF_REPO: development only - run against a scratch worktree without touching the committed records)
+EVID = os.environ.get('VERIF_EVIDENCE') or os.path.join(VERIF, 'evidence')
+REPLAYS = os.environ.get('VERIF_REPLAYS') or os.path.join(VERIF, 'replays')
 KNOWN = os.path.join(VERIF, 'known_findings.txt')
 BASELINE = os.path.join(VERIF, 'baseline')
 
@@ -85,7 +86,7 @@ def run_unit(uname, seed=None, rlimit=None, pid=''):
     r = {'unit': uname}
     try:
         # one build directory per property (and per solver configuration): checks of different properties may run concurrently
-        sub = os.path.join(pid, ('s%d' % seed) if seed is not None else '')
+        sub = os.path.join(pid + ('-alt' if os.environ.get('VERIF_REPO') else ''), ('s%d' % seed) if seed is not None else '')
         unit, res = build_and_run(uname, canary=False, seed=seed, rlimit=rlimit, subdir=sub)
         cunit, cres = build_and_run(uname, canary=True, seed=seed, rlimit=rlimit, subdir=sub)
         r.update(unit=unit, res=res, cunit=cunit, cres=cres)
